@@ -238,7 +238,7 @@ func cmdCheck(args []string) {
 			engineErrs = append(engineErrs, o.Name+": "+o.Detail)
 		}
 		reports = append(reports, rep)
-		backends[o.Solver]++
+		backends[backendName(o)]++
 		solverTime += o.TimeS
 	}
 	for _, lu := range pd.Lemmas {
@@ -254,7 +254,7 @@ func cmdCheck(args []string) {
 				failed = append(failed, o)
 			}
 			reports = append(reports, rep)
-			backends[o.Solver]++
+			backends[backendName(o)]++
 			solverTime += o.TimeS
 		}
 	}
@@ -266,7 +266,7 @@ func cmdCheck(args []string) {
 				failed = append(failed, o)
 			}
 			reports = append(reports, rep)
-			backends[o.Solver]++
+			backends[backendName(o)]++
 		}
 	}
 	sort.Slice(reports, func(i, j int) bool { return reports[i].Name < reports[j].Name })
@@ -287,7 +287,26 @@ func cmdCheck(args []string) {
 	violations := 0
 	discharged := 0
 	var lines []string
-	for _, r := range reports {
+	// Canaries (vacuity / cover) are satisfiability checks on the assumptions, not proof obligations of the property:
+	// they are counted apart. A failed canary is still a violation; an inconclusive one (no solver found a model in
+	// its 4 s budget) proves nothing either way and is reported as such.
+	nObl := 0
+	canaries := map[string]int{"total": 0, "decided": 0, "inconclusive": 0, "failed": 0}
+	for i, r := range reports {
+		if r.Kind == "vacuity" || r.Kind == "cover" {
+			canaries["total"]++
+			switch {
+			case r.Status != "discharged":
+				canaries["failed"]++
+			case strings.Trim(r.Backend, "+") == "":
+				canaries["inconclusive"]++
+				reports[i].Backend = "inconclusive"
+			default:
+				canaries["decided"]++
+			}
+			continue
+		}
+		nObl++
 		if r.Status == "discharged" {
 			discharged++
 		}
@@ -354,7 +373,7 @@ func cmdCheck(args []string) {
 		"property_id": id, "tier": tier, "seed": seed, "level": pd.Level, "wall_s": round3(wall), "violations": violations,
 		"assumptions": assumptions,
 		"coverage": map[string]any{
-			"obligations": len(reports), "discharged": discharged,
+			"obligations": nObl, "discharged": discharged, "canaries": canaries,
 			"checker_cmd":              "/verif/bin/govc check " + id,
 			"trusted_base":             trusted,
 			"functions_under_contract": sortedKeys(funcs),
@@ -379,7 +398,7 @@ func cmdCheck(args []string) {
 	for _, l := range lines {
 		fmt.Println(l)
 	}
-	fmt.Printf("%s %s: %d obligations, %d discharged, %d violations, %.1fs\n", id, tier, len(reports), discharged, violations, wall)
+	fmt.Printf("%s %s: %d obligations, %d discharged, %d canaries (%d inconclusive), %d violations, %.1fs\n", id, tier, nObl, discharged, canaries["total"], canaries["inconclusive"], violations, wall)
 	if len(reports) == 0 {
 		fmt.Println("govc: no obligations generated — refusing to report success")
 		os.Exit(2)
@@ -448,4 +467,15 @@ func toggleRecv(key string) string {
 		return key[:i] + ".(*" + key[i+2:]
 	}
 	return key
+}
+
+func backendName(o *Obligation) string {
+	b := strings.Trim(o.Solver, "+")
+	if b == "" {
+		if satCheck(o) {
+			return "inconclusive-canary"
+		}
+		return "none"
+	}
+	return b
 }
